@@ -71,7 +71,14 @@ class Judge:
         if e is None:
             self.stats["unmodelled_or_nonterminating"] += 1; return "unjudged"
         if node_ev is not None and node_ev != e:
-            self.stats["spec_disagrees_with_reference_engine"] += 1; return "unjudged"
+            self.stats["spec_disagrees_with_reference_engine"] += 1
+            try:
+                import json, os
+                with open(os.path.join(os.path.dirname(os.path.dirname(os.path.abspath(__file__))), "build", "spec_vs_node.jsonl"), "a") as f:
+                    f.write(json.dumps({"what": what, "source": source, "spec": e, "node": node_ev, "feat": exprec.get("feat", [])}) + "\n")
+            except Exception:
+                pass
+            return "unjudged"
         self.stats["judged"] += 1
         a = M.impl_events(impl)
         if a == e and not impl.get("stale"):
